@@ -1,10 +1,10 @@
 SPECIFICATION Spec
 CONSTANTS
-  DeliverPhase = "start"
+  DeliverPhase = "end"
   ImrVals <- ImrSmall
   MaxDepth = 7
   MaxNest = 2
-  AckOnReturn = FALSE
+  AckOnReturn = TRUE
   RecordActs = FALSE
 INVARIANT DeliverOnlyIfEnabled
 INVARIANT FrameOnEntry
